@@ -20,8 +20,8 @@
     NOT covered by a theorem (correspondence + oracle only, see TESTED_NOT_PROVED in harness/props/C04.py): the
     "all centre hydrogens explicit" branch (default mode: _strip_explicit_h, hydrogen expansion, _explicit_h). *)
 From Coq Require Import List NArith ZArith Bool Permutation.
-From SK Require Import lib.Mono model.C06_Model lib.C06_Spec.
-From SK Require Import lib.Tok lib.LGraph model.C03_Model model.C04_Model proof.C04_Any proof.C04_Check proof.C04_Proof proof.C04_DefaultProof proof.C04_Engine proof.C04_Examples.
+From SK Require Import lib.Mono model.C06_Model lib.C06_Spec model.C11_Model.
+From SK Require Import lib.Tok lib.LGraph model.C03_Model model.C04_Model proof.C04_Any proof.C04_Check proof.C04_Proof proof.C04_DefaultProof proof.C04_Engine proof.C04_Prune proof.C04_Examples.
 Import ListNotations.
 Local Open Scope Z_scope.
 
@@ -170,3 +170,24 @@ Theorem C04_identity_among_raw : forall (core invert : bool) (G H : hostg)
              Permutation (id_map (node_ids (pattern_of l))) m'.
 Proof. exact identity_among_raw. Qed.
 Print Assumptions C04_identity_among_raw.
+
+(** the pruning premise DISCHARGED with C11's theorem (prune_complete_fun, read-only): take any raw list of injective maps
+    defined on atoms of the rule that contains the identity as a set of pairs (C04_identity_among_raw provides it for
+    strategy ALL); hand the rule to C11's model of the pruning ([C11_Model.prune], first match of every class under the
+    automorphisms of the rule centre) through node / edge codes that are faithful on the rule ([faithful]: equal codes
+    only for atoms with equal tuples / bonds with equal labels -- the harness interns attribute values); then its_list
+    built from what the pruning keeps contains an ITS that decomposes to the reaction.  With C04_identity_among_raw
+    this is the whole chain substrate -> matches -> pruning -> gluing of the implicit mode, up to RDKit serialisation. *)
+Theorem C04_pruned_results : forall (cn : inode -> N) (ce : iedge -> N) (core invert : bool) (G H : hostg)
+    (raw : list C03_Model.mapping),
+  faithful cn ce (template core invert G H) ->
+  pair_wfb G H = true -> no_explicit_H G = true ->
+  (core = true -> centre_carries (its_construct G H) = true) ->
+  (forall m, In m raw -> NoDup (map fst m) /\ NoDup (map snd m) /\
+                         forall p h, In (p, h) m -> In p (node_ids (template core invert G H))) ->
+  (exists m0, In m0 raw /\ Permutation (id_map (node_ids (template core invert G H))) m0) ->
+  exists T : its,
+    In (Some T) (its_list core invert G H (C11_Model.prune (fun m : C03_Model.mapping => m) (tr_rule cn ce (template core invert G H)) raw)) /\
+    regen_exact T (if invert then H else G) (if invert then G else H) = true.
+Proof. exact pruned_results_all. Qed.
+Print Assumptions C04_pruned_results.
